@@ -2,7 +2,11 @@ use crate::{
     emulator::Emulator,
     error::IoError,
     host::{DataRecorder, Host, LoadableAsset, SeekFrom, SeekableAsset},
-    zx::{machine::ZXMachine, video::colors::ZXColor},
+    zx::{
+        machine::ZXMachine,
+        memory::{Page, PAGE_SIZE},
+        video::colors::ZXColor,
+    },
     Result,
 };
 
@@ -167,41 +171,20 @@ where
     Ok(())
 }
 
-/// Helper class to place emulator in the state required for
-/// snapshoting and return to normal state afterwards
-struct ScopedSnapshotState<'a, H: Host> {
-    pub emulator: &'a mut Emulator<H>,
-    pub is_48k: bool,
-}
-
-impl<'a, H: Host> ScopedSnapshotState<'a, H> {
-    fn enter(emulator: &'a mut Emulator<H>) -> Self {
-        let is_48k = emulator.settings.machine == ZXMachine::Sinclair48K;
-        if is_48k {
-            emulator.cpu.push_pc_to_stack(&mut emulator.controller);
-        }
-
-        Self { emulator, is_48k }
-    }
-}
-
-impl<'a, H: Host> Drop for ScopedSnapshotState<'a, H> {
-    fn drop(&mut self) {
-        if self.is_48k {
-            self.emulator
-                .cpu
-                .pop_pc_from_stack(&mut self.emulator.controller);
-        }
-    }
-}
-
 pub fn save<H, R>(emulator: &mut Emulator<H>, mut recorder: R) -> Result<()>
 where
     H: Host,
     R: DataRecorder,
 {
-    let state = ScopedSnapshotState::enter(emulator);
-    let ScopedSnapshotState { emulator, is_48k } = &state;
+    let is_48k = emulator.settings.machine == ZXMachine::Sinclair48K;
+    // 48K SNA keeps PC on the stack: SP is stored already decremented and PC is placed
+    // below it in the written memory image. The running machine is left untouched
+    let [pcl, pch] = emulator.cpu.regs.get_pc().to_le_bytes();
+    let sp = if is_48k {
+        emulator.cpu.regs.get_sp().wrapping_sub(2)
+    } else {
+        emulator.cpu.regs.get_sp()
+    };
 
     let mut header = [0u8; SNA_HEADER_SIZE];
     // interrupt register
@@ -238,7 +221,7 @@ where
     header[21] = emulator.cpu.regs.get_flags();
     header[22] = emulator.cpu.regs.get_acc();
     // SP
-    let [spl, sph] = emulator.cpu.regs.get_sp().to_le_bytes();
+    let [spl, sph] = sp.to_le_bytes();
     header[23] = spl;
     header[24] = sph;
     // Interrupt mode
@@ -248,10 +231,20 @@ where
 
     recorder.write_all(&header)?;
 
-    if *is_48k {
+    if is_48k {
+        let stacked_pc = [(sp, pcl), (sp.wrapping_add(1), pch)];
         for page_index in 0..SNA_48K_RAM_PAGES_COUNT {
-            let page = emulator.controller.memory.ram_page_data(page_index);
-            recorder.write_all(page)?;
+            let mut page = emulator
+                .controller
+                .memory
+                .ram_page_data(page_index)
+                .to_vec();
+            for (addr, byte) in stacked_pc {
+                if emulator.controller.memory.get_page(addr) == Page::Ram(page_index) {
+                    page[addr as usize % PAGE_SIZE] = byte;
+                }
+            }
+            recorder.write_all(&page)?;
         }
     } else {
         let paginated_bank = match emulator
@@ -273,7 +266,6 @@ where
         }
 
         // PC, 7ffd, trdos
-        let [pcl, pch] = emulator.cpu.regs.get_pc().to_le_bytes();
         let port_7ffd = emulator.controller.read_7ffd();
         let trdos_paged = 0x00;
         recorder.write_all(&[pcl, pch, port_7ffd, trdos_paged])?;
